@@ -24,7 +24,7 @@ MODES_INFO = {
     "hallreq": "Setting::HallNumber(h) for every h in 1..=530 on a crystal generated in that setting (own and re-described cell), on a crystal of another type, and for out-of-range Hall numbers",
     "lowsym": "many cheap low-symmetry cases: Hall 1/2 (triclinic) and monoclinic settings, half with an extra species on a special position, strongly re-based + shifted (+ supercells of index 2..5)",
     "adjust": "inputs on which the first attempt fails (noise 0.3..4 x symprec, oversized symprec), with the tolerance-handler trace recorded by the verif hook",
-    "meta": "metamorphic pairs: a base crystal and a random word of 1-5 re-descriptions of it (re-basing, origin shift, rigid rotation, permutation, added lattice vectors, scaling with symprec, supercell, mirror image)",
+    "meta": "metamorphic pairs: a base crystal and a random word of 1-5 re-descriptions of it (re-basing, origin shift, rigid rotation, permutation, added lattice vectors, scaling with symprec, supercell, mirror image); distorted pairs (atoms displaced by 0.25-0.45 symprec, premise validated by a brute-force residual profile) with reordered atoms; face-scan pairs (origin placed so that an atom lies just inside / outside a cell face)",
     "wyckoff": "crystals with atoms placed on tabulated Wyckoff positions (every position of every Hall setting over the tiers) plus a general-position species, own and re-described cells; settings Spglib/Standard alternating and, for a slice, Setting::HallNumber(generating Hall number); plus positions with a free parameter close to a special value (orbit atoms clustering at 10 symprec .. 1.8 sqrt(symprec))",
 }
 
